@@ -8,6 +8,8 @@ import (
 	rt "github.com/vx-labs/wasp/v4/zzsymxrt"
 )
 
+var symxLastQos int32
+
 type symxFlight struct {
 	sess  int
 	qos   int32
@@ -23,6 +25,7 @@ func symxCountOut(c *symxConn, id int32) (pubs, rels int) {
 		case *packet.Publish:
 			if x.MessageId == id {
 				pubs++
+				symxLastQos = x.Header.Qos
 			}
 		case *packet.PubRel:
 			if x.MessageId == id {
@@ -62,11 +65,35 @@ func symxC03() {
 	for k := 0; k < nsess; k++ {
 		ss[k], cs[k] = b.session(names[k], "c"+names[k], "m", 30)
 	}
+	fanout := nsess == 2 && rt.Param("fanout", 0) == 1
 	fl := make([]symxFlight, n)
-	for k := range fl {
+	for k := 0; k < n; k++ {
+		symxTick()
+		if fanout && k+1 < n {
+			// one message, two recipients granted solver-chosen (possibly different) QoS
+			fl[k].sess, fl[k+1].sess = 0, 1
+			fl[k].qos, fl[k+1].qos = int32(rt.Int("qos", 1, 2)), int32(rt.Int("qos", 1, 2))
+			b.writer.Send(b.ctx, []string{names[0], names[1]}, []int32{fl[k].qos, fl[k+1].qos}, &packet.Publish{Header: &packet.Header{}, Topic: []byte("m/t"), Payload: []byte{byte('a' + k)}})
+			rt.Quiesce()
+			symxPoolRetryWait(2)
+			for j := k; j <= k+1; j++ {
+				var mine *packet.Publish
+				for _, pk := range symxPublishes(cs[fl[j].sess].written()) {
+					if len(pk.Payload) == 1 && pk.Payload[0] == byte('a'+k) {
+						mine = pk
+					}
+				}
+				rt.Assert(mine != nil, "C03.first_copy_written")
+				rt.Assert(mine.Header.Qos == fl[j].qos, "C03.copy_carries_the_granted_qos")
+				fl[j].id = mine.MessageId
+				fl[j].pubs = 1
+			}
+			rt.Assert(fl[k].id != fl[k+1].id, "C03.identifiers_in_flight_are_distinct")
+			k++
+			continue
+		}
 		fl[k].sess = k % nsess
 		fl[k].qos = int32(rt.Int("qos", 1, 2))
-		symxTick()
 		b.writer.Send(b.ctx, []string{names[fl[k].sess]}, []int32{fl[k].qos}, &packet.Publish{Header: &packet.Header{}, Topic: []byte("m/t"), Payload: []byte{byte('a' + k)}})
 		rt.Quiesce()
 		symxPoolRetryWait(2) // the writer waits 100 ms when the pool hands out identifier 0
@@ -143,6 +170,7 @@ func symxC03() {
 		for k := range fl {
 			pubs, rels := symxCountOut(cs[fl[k].sess], fl[k].id)
 			rt.Assert(pubs == fl[k].pubs, "C03.publish_resent_exactly_once_per_expired_deadline_with_same_id")
+			rt.Assert(pubs == 0 || symxLastQos == fl[k].qos, "C03.retransmission_keeps_the_granted_qos")
 			rt.Assert(rels == fl[k].rels, "C03.pubrel_resent_exactly_once_per_expired_deadline_with_same_id")
 		}
 	}
